@@ -44,10 +44,10 @@ class RecFile:
         self.ops.append(("flush",))
 
     def seek(self, off, whence=0):
-        self.ops.append(("seek", off))
+        self.ops.append(("seek", off, whence))
 
     def truncate(self, size=None):
-        self.ops.append(("truncate",))
+        self.ops.append(("truncate", size))
 
     def seekable(self):
         return True
@@ -76,8 +76,9 @@ def _sim():
     return mc, atoms
 
 
-def pattern(kind):
-    """Operation kinds of the header (logger only) and of ONE observer call, from the current source."""
+def pattern(kind, mode="w"):
+    """Operations of the header (logger only) and of ONE observer call, from the current source.
+    `mode` is the observer's mode argument (a user-supplied handle keeps whatever mode it was opened with)."""
     from quansino.io.logger import Logger
     from quansino.io.restart import RestartObserver
     from quansino.io.trajectory import TrajectoryObserver
@@ -85,36 +86,37 @@ def pattern(kind):
     mc, atoms = _sim()
     f = RecFile()
     if kind == "logger":
-        obs = Logger(f, interval=1, mode="w")
+        obs = Logger(f, interval=1, mode=mode)
         obs.add_mc_fields(mc)
         obs.write_header()
-        header = [o[0] for o in f.ops]
+        header = [(o[0],) for o in f.ops]
         f.ops.clear()
     elif kind == "trajectory":
-        obs = TrajectoryObserver(atoms, f, interval=1, mode="w")
+        obs = TrajectoryObserver(atoms, f, interval=1, mode=mode)
         header = []
     else:
-        obs = RestartObserver(mc, f, interval=1, mode="w")
+        obs = RestartObserver(mc, f, interval=1, mode=mode)
         header = []
     obs()
-    first = [o[0] for o in f.ops]
+    first = [(o[0],) + tuple(o[1:]) if o[0] in ("seek", "truncate") else (o[0],) for o in f.ops]
     f.ops.clear()
     obs()
-    second = [o[0] for o in f.ops]
+    second = [(o[0],) + tuple(o[1:]) if o[0] in ("seek", "truncate") else (o[0],) for o in f.ops]
     return header, first, second
 
 
 # ------------------------------------------------------------------ file-state model
 class FileModel:
-    """Durable content D and user-space buffer B as lists of chunks (doc, length); `wpos` is the offset
-    at which the next flushed byte lands.  Lengths are symbolic integers."""
+    """Durable content D and user-space buffer B as lists of chunks (tag, length); lengths are symbolic
+    integers.  `append` = the handle was opened in append mode (every write lands at the end);
+    otherwise `pos` is the offset of the next byte (the end of the file after a completed call)."""
 
-    def __init__(self, V, initial):
+    def __init__(self, V, initial, append=False):
         self.V = V
-        self.D = list(initial)  # [(tag, length)]
+        self.D = list(initial)
         self.B = []
-        self.append_mode = True
-        self.wpos = None  # None = end of file
+        self.append = append
+        self.pos = self._len(self.D)
 
     def _len(self, chunks):
         t = 0
@@ -122,35 +124,7 @@ class FileModel:
             t = t + n
         return t
 
-    def _drop(self, chunks, n):
-        """Content of `chunks` beyond the first n bytes (n symbolic: forks on the comparisons)."""
-        out = []
-        rest = n
-        for tag, ln in chunks:
-            if _true(self.V, rest <= 0) if not isinstance(rest, int) else rest <= 0:
-                out.append((tag, ln))
-                continue
-            if bool(rest >= ln):
-                rest = rest - ln
-                continue
-            out.append((tag + ":tail", ln - rest))
-            rest = 0
-        return out
-
-    def _apply(self, chunks):
-        if not chunks:
-            return
-        if self.wpos is None:
-            self.D = self.D + list(chunks)
-        else:
-            n = self._len(chunks)
-            head = self._take(self.D, self.wpos)
-            self.D = head + list(chunks) + self._drop(self.D, self.wpos + n)
-            self.wpos = self.wpos + n
-
     def _take(self, chunks, n):
-        if isinstance(n, int) and n == 0:
-            return []
         out = []
         rest = n
         for tag, ln in chunks:
@@ -164,27 +138,52 @@ class FileModel:
                 rest = 0
         return out
 
-    def op(self, kind, tag=None, length=None):
+    def _drop(self, chunks, n):
+        out = []
+        rest = n
+        for tag, ln in chunks:
+            if bool(rest <= 0):
+                out.append((tag, ln))
+                continue
+            if bool(rest >= ln):
+                rest = rest - ln
+                continue
+            out.append((tag + ":tail", ln - rest))
+            rest = 0
+        return out
+
+    def _apply(self, chunks):
+        if not chunks:
+            return
+        n = self._len(chunks)
+        end = self._len(self.D)
+        at = end if self.append else self.pos
+        if bool(at > end):
+            self.D = self.D + [("NUL-gap", at - end)] + list(chunks)
+        else:
+            self.D = self._take(self.D, at) + list(chunks) + self._drop(self.D, at + n)
+        self.pos = at + n
+
+    def op(self, kind, tag=None, length=None, arg=None):
         if kind == "write":
             self.B.append((tag, length))
-        elif kind == "flush":
-            self._apply(self.B)
-            self.B = []
-        elif kind == "seek":
-            self._apply(self.B)
-            self.B = []
-            self.wpos = 0
+            return
+        self._apply(self.B)  # flush, seek and truncate all push the buffer first
+        self.B = []
+        if kind == "seek":
+            self.pos = arg if arg is not None else 0
         elif kind == "truncate":
-            self._apply(self.B)
-            self.B = []
-            if self.wpos is not None:
-                self.D = self._take(self.D, self.wpos)
+            size = self.pos if arg is None else arg
+            end = self._len(self.D)
+            if bool(size < end):
+                self.D = self._take(self.D, size)
+            elif bool(size > end):
+                self.D = self.D + [("NUL-gap", size - end)]
 
     def crash(self, persisted):
         """Process death: buffered bytes are lost except a prefix the library may already have pushed."""
         if self.B:
-            pre = self._take(self.B, persisted)
-            self._apply(pre)
+            self._apply(self._take(self.B, persisted))
         self.B = []
 
 
@@ -200,43 +199,41 @@ def _same_chunks(a, b):
     return len(a) == len(b) and all(x[0] == y[0] and symx.same_term(x[1], y[1]) if symx.is_sym(x[1]) or symx.is_sym(y[1]) else x == y for x, y in zip(a, b))
 
 
-def sc_observer(V, kind="logger"):
+def sc_observer(V, kind="logger", mode="w", append_handle=False):
     if V.mode != "sym":
-        return _real_crash(V, kind)
-    header, first, second = pattern(kind)
-    nw1 = sum(1 for o in first if o == "write")
-    nw2 = sum(1 for o in second if o == "write")
-    info = f"{kind}:pattern={'/'.join(second)}"
+        return _real_crash(V, kind, mode, append_handle)
+    header, first, second = pattern(kind, mode)
+    kinds2 = [o[0] for o in second]
+    nw1 = sum(1 for o in first if o[0] == "write")
+    nw2 = sum(1 for o in second if o[0] == "write")
+    info = f"{kind}:mode={mode}:append_handle={append_handle}:pattern={'/'.join(kinds2)}"
     V.prove(first == second, "same-pattern-every-call", info=info)
-    hdr = _doc_chunks("header", _sym_lens(V, "h", sum(1 for o in header if o == "write")))
+    hdr = _doc_chunks("header", _sym_lens(V, "h", sum(1 for o in header if o[0] == "write")))
     prev = _doc_chunks("doc1", _sym_lens(V, "a", nw1))
-    cur_l = _sym_lens(V, "b", nw2)
-    cur = _doc_chunks("doc2", cur_l)
+    cur = _doc_chunks("doc2", _sym_lens(V, "b", nw2))
     # state after the completed call j-1 (induction hypothesis = the post-condition proved below)
     if kind == "restart":
         initial = list(prev)
     else:
-        earlier = [("earlier-records", V.int("earlier", 0, None))]
-        initial = hdr + earlier + list(prev)
-    fm = FileModel(V, initial)
+        initial = hdr + [("earlier-records", V.int("earlier", 0, None))] + list(prev)
+    fm = FileModel(V, initial, append=append_handle)
     nops = len(second)
     c = V.choice("crash_after_op", nops + 1)  # ops [0,c) complete; c == nops: no crash
     wi = 0
     for i, o in enumerate(second):
         if i >= c:
             break
-        if o == "write":
+        if o[0] == "write":
             fm.op("write", cur[wi][0], cur[wi][1])
             wi += 1
         else:
-            fm.op(o)
+            fm.op(o[0], arg=o[1] if len(o) > 1 else None)
     crashed = c < nops
     V.reach("crash" if crashed else "complete")
     if crashed:
-        blen = fm._len(fm.B)
         q = V.int("persisted", 0, None)
         if fm.B:
-            V.assume(q <= blen)
+            V.assume(q <= fm._len(fm.B))
         fm.crash(q)
     D = fm.D
     where = info + f":crash_after_op={c if crashed else 'none'}"
@@ -261,7 +258,7 @@ import json, os, sys, warnings
 warnings.simplefilter("ignore")
 sys.path.insert(0, %(root)r)
 from qverif.props import c16
-kind, path, crash_at = %(kind)r, %(path)r, %(crash)d
+kind, path, crash_at, omode, hmode = %(kind)r, %(path)r, %(crash)d, %(omode)r, %(hmode)r
 mc, atoms = c16._sim()
 class Proxy:
     def __init__(self, f): self.f = f; self.n = 0; self.armed = False
@@ -276,16 +273,16 @@ class Proxy:
     def seekable(self): return True
     def close(self): pass
     closed = False
-f = Proxy(open(path, "w"))
+f = Proxy(open(path, hmode))
 from quansino.io.logger import Logger
 from quansino.io.restart import RestartObserver
 from quansino.io.trajectory import TrajectoryObserver
 if kind == "logger":
-    obs = Logger(f, interval=1, mode="w"); obs.add_mc_fields(mc); obs.write_header()
+    obs = Logger(f, interval=1, mode=omode); obs.add_mc_fields(mc); obs.write_header()
 elif kind == "trajectory":
-    obs = TrajectoryObserver(atoms, f, interval=1, mode="w")
+    obs = TrajectoryObserver(atoms, f, interval=1, mode=omode)
 else:
-    obs = RestartObserver(mc, f, interval=1, mode="w")
+    obs = RestartObserver(mc, f, interval=1, mode=omode)
 mc.run(2)          # grow/shrink the state a little
 obs()              # call j-1, complete
 f.f.flush()
@@ -299,13 +296,13 @@ os._exit(0)        # no implicit flush: whatever the observer left in the buffer
 '''
 
 
-def _real_crash(V, kind):
+def _real_crash(V, kind, mode="w", append_handle=False):
     import ase.io.jsonio as J
 
     c = V.int("crash_after_op", 0, None)
     with tempfile.TemporaryDirectory() as td:
         path = os.path.join(td, "out.txt")
-        code = _CHILD % {"root": ROOT, "kind": kind, "path": path, "crash": c}
+        code = _CHILD % {"root": ROOT, "kind": kind, "path": path, "crash": c, "omode": mode, "hmode": "a" if append_handle else "w"}
         env = dict(os.environ)
         p = subprocess.run([sys.executable, "-c", code], capture_output=True, text=True, timeout=120, env=env)
         before = open(path + ".before").read() if os.path.exists(path + ".before") else None
@@ -340,10 +337,15 @@ replay = generic_replay(SCENARIOS)
 def run(rep: Report):
     tier = rep.tier
     opts = {"prove_timeout_ms": 10000, "fork_timeout_ms": 2000, "seed": rep.seed, "scenario_wall_s": 240 if tier == "quick" else 900}
-    plan = [("observer", dict(kind=k), ("crash", "complete")) for k in ("logger", "trajectory", "restart")]
+    plan = []
+    for k in ("logger", "trajectory", "restart"):
+        # (observer mode argument, handle really opened for appending): 'w' file, 'a' file, and a user
+        # handle opened with 'w' while the mode argument keeps its default 'a'
+        for mode, app in (("w", False), ("a", True), ("a", False)):
+            plan.append(("observer", dict(kind=k, mode=mode, append_handle=app), ("crash", "complete")))
     run_plan(rep, plan, SCENARIOS, opts)
     rep.bounds = {"calls": "two consecutive calls j-1, j from an arbitrary well-formed file state (inductive)", "document lengths": "symbolic positive integers per write, independent for the two calls (growing and shrinking)", "crash point": "after any operation of call j", "persisted prefix of the buffer": "symbolic"}
     rep.assumptions = ["crash = process death: flushed bytes are durable, buffered bytes are lost except a prefix the I/O library may already have pushed", "seek and truncate flush the buffer first (Python io semantics)", "operation pattern taken from a real observer call on the current source; contents of a complete document are C07/C08's subject"]
     rep.stubs = ["RecFile recording stream", "FileModel"]
-    rep.outside = ["power loss (no fsync model)", "validity of the content of a complete document", "files opened in 'a' mode differ from 'w' only in the initial content, which is symbolic here"]
+    rep.outside = ["power loss (no fsync model)", "validity of the content of a complete document", "binary/exclusive modes"]
     rep.extra["explanation"] = "symbolic crash-point analysis of the real observers' operation patterns over a file-state model with symbolic document lengths; the weakest use of the solver in the set (contents concrete)"
